@@ -188,15 +188,45 @@ class NeedSplit(Exception):
         self.d = d
 
 
-def sign_of(d, assumptions):
-    """'<0' | '==0' | '>0' | '>=0' | '<=0' | '!=0' | None for the linear form d under the assumptions."""
+_FLIP = {"<0": ">0", ">0": "<0", ">=0": "<=0", "<=0": ">=0", "==0": "==0", "!=0": "!=0"}
+
+
+def _sign_direct(d, assumptions):
     if d.is_const():
         return "<0" if d.c < 0 else ("==0" if d.c == 0 else ">0")
     for (a, rel) in assumptions:
         if a == d:
             return rel
         if a == -d:
-            return {"<0": ">0", ">0": "<0", ">=0": "<=0", "<=0": ">=0", "==0": "==0", "!=0": "!=0"}[rel]
+            return _FLIP[rel]
+    return None
+
+
+def _sign_unsigned(d):
+    """every symbol stands for an unsigned quantity (a size, a count, a byte offset): a form with no negative coefficient and
+    no negative constant is >= 0 (> 0 with a positive constant)"""
+    if d.t and all(v > 0 for v in d.t.values()) and d.c >= 0 and not any("@" in k_ or k_.startswith(("p:str", "this.m_p", "buffer-start")) for k_ in d.t):
+        return ">0" if d.c > 0 else ">=0"
+    return None
+
+
+def sign_of(d, assumptions):
+    """'<0' | '==0' | '>0' | '>=0' | '<=0' | '!=0' | None for the linear form d under the assumptions (direct matches, and one
+    step of addition: d = a + r with the sign of a assumed and r a constant or a sum of unsigned quantities)."""
+    s = _sign_direct(d, assumptions)
+    if s is not None:
+        return s
+    for (a, rel) in assumptions:
+        for part, prel in ((a, rel), (-a, _FLIP[rel])):
+            r = d - part
+            rs = _sign_direct(r, ()) if r.is_const() else _sign_unsigned(r)
+            if rs is None:
+                continue
+            pair = {prel, rs}
+            if pair <= {">0", ">=0", "==0"}:
+                return ">0" if ">0" in pair else (">=0" if ">=0" in pair else "==0")
+            if pair <= {"<0", "<=0", "==0"} and rs in ("<0", "==0"):
+                return "<0" if "<0" in pair else ("<=0" if "<=0" in pair else "==0")
     return None
 
 
@@ -485,6 +515,17 @@ def _analyse_copy(body, src_param, size_param, is_avail, is_cursor, classify_cal
             st.pending = None
             st.env[mp_key] = st.env.get(mp_key, Lin.sym(mp_key)) + n
             st.env[av_key] = st.env.get(av_key, Lin.sym(av_key)) - n
+            return True
+        if kind == "gather":
+            # the staged bytes and n bytes of the source handed to the output in one call: n bytes of the string are out
+            a = u["args"]
+            sv, n = evx(a[2], st), evx(a[3], st)
+            want = SRC + st.G
+            if sv != want:
+                problem(line, "the gathering write takes the string from %r but %r bytes have been copied so far: the next byte to copy is at %r" % (sv, st.G, want),
+                        not opaque(sv - want))
+            st.G = st.G + n
+            st.pending = None
             return True
         if kind == "flush":
             st.env[mp_key] = Lin.sym("buffer-start")
